@@ -286,6 +286,29 @@ func (s *Ref) commit(r *reg) {
 // minimal first. The named identity must be gone; the statement is silent on whether
 // Remove(T) also drops keyed or grouped registrations of T, and on what happens to the other
 // outputs of a multi-output registration one output of which is removed.
+func (s *Ref) afterRemove(o *Op) []*Ref {
+	key, matches := o.refKey()
+	if !matches {
+		return []*Ref{s}
+	}
+	if o.KeyKind == "nil" {
+		// RemoveKeyed(T, nil) "removes a specific keyed service": the unkeyed identity only
+		c := s.removeCandidates(o.Type, key)
+		return c[:1]
+	}
+	return s.removeCandidates(o.Type, key)
+}
+
+// had reports whether the op addresses a registered identity.
+func (s *Ref) had(o *Op) bool {
+	key, matches := o.refKey()
+	if !matches {
+		return false
+	}
+	_, ok := s.svc[ident{T: o.Type, Key: key}]
+	return ok
+}
+
 func (s *Ref) removeCandidates(t, key string) []*Ref {
 	target := ident{T: t, Key: key}
 	owner, had := s.svc[target]
